@@ -22,6 +22,9 @@ OPL writer (append_utf8_encoded_string) against the OPL reader (opl_parse_string
 OPL reader:
  R1-unescape-accumulates-hex  value starts at 0, is shifted by the nibble width before each digit is added, and the
         finished value goes to append_codepoint_as_utf8 into the result string.
+ R3-verbatim-copy-excludes-structural  cursor typestate of opl_parse_string: the bytes that can reach the literal copy (dataflow of
+        the tests since the cursor last changed by an increment / a call taking its address) contain neither the escape introducer,
+        nor a frame byte of the writer, nor a separator opl_parse_char expects right after a string, nor a section delimiter, nor NUL.
  R2-utf8-encoder-table  append_codepoint_as_utf8: range thresholds and every emitted byte (bit-slice evaluation) equal
         the UTF-8 encoding table.
 XML writer:
@@ -32,6 +35,9 @@ XML writer:
  X2-xml-strings-escaped every object string (const char* accessor of an OSM data class, also when first bound to a local) and every
         header option written by the XML output classes goes through append_xml_encoded_string, or is a local that is only
         written when it equals a markup-free literal.
+ X3-xml-text-chunks-appended  XMLParser::characters appends each expat character-data chunk (never assigns).
+        (X1 also covers bulk fast paths: `out.append(data)` guarded by a strpbrk scan passes every byte outside the scan's literal
+        set, which therefore has to contain every character the per-character table replaces.)
 Bounded reads:
  N1-cursor-advance-guarded  in opl_parse_string, opl_parse_escaped and append_xml_encoded_string the cursor is advanced
         only when the byte under it is known to be non-NUL (guard set excludes 0, no other advance in between).
@@ -78,12 +84,11 @@ ASSUMPTIONS = ['UTF-8 table (RFC 3629) and the XML 1.0 predefined entities / att
 
 # Genuine defects of the unchanged tree found by these rules: (rule, key, explanation).  Reported with R.bad as usual.
 KNOWN = [
-    ('O4-hex-digits-positional',
-     'osmium::io::detail::append_min_4_hex_digits#nibble16-written-whenever-nibble20-is',
-     'append_min_4_hex_digits tests each of the four optional leading nibbles on its own (`v = value & 0x000f0000; if (v)`), so for '
-     'U+100000..U+10FFFF the nibble at bit 20 is written and the zero nibble at bit 16 is dropped: "\\xF4\\x80\\x80\\x80" (U+100000) is '
-     'escaped as "%10000%", which opl_parse_escaped decodes as U+10000; escape(U+100000) == escape(U+10000), injectivity and round trip '
-     'fail for all of plane 16.'),
+    # (rule, key, explanation).  Nothing open at present.  Found by O4 on the original tree and since repaired in /repo
+    # (mutant `hex4-fix-reverted` is the reverted fix):
+    #   O4-hex-digits-positional  osmium::io::detail::append_min_4_hex_digits#nibble16-written-whenever-nibble20-is
+    #   the four optional leading nibbles were tested on their own (`v = value & 0x000f0000; if (v)`), so U+100000..U+10FFFF lost the
+    #   zero nibble at bit 16: "\xF4\x80\x80\x80" (U+100000) was escaped as "%10000%", which decodes to U+10000.
 ]
 
 NS = 'osmium::io::detail::'
@@ -339,7 +344,7 @@ def opl_writer_rules(fb, R):
     except (Broken, Unsupported) as e:
         R.broken(str(e))
         return
-    for rule in (_o1, _o2, _o3, _o4_o5, _o6, _r1):
+    for rule in (_o1, _o2, _o3, _o4_o5, _o6, _r1, _r3):
         try:
             rule(fb, R, wm, rm)
         except (Broken, Unsupported) as e:
@@ -723,6 +728,49 @@ def _o6(fb, R, wm, rm):
     R.check(ok, rule, '%s#append-range' % WR, site, why)
 
 
+def _follow_chars(fb):
+    """[(function, call node, byte)] constants that opl_parse_char expects directly after a string: reachable from an
+    opl_parse_string call without another opl_parse_* call in between"""
+    out = []
+    for fn in fb.functions:
+        strs = list(fn.calls(qname=PSTR))
+        if not strs:
+            continue
+        parse_calls = {n['id'] for n in fn.all_nodes() if n.get('k') == 'call' and n.get('q', '').startswith(NS + 'opl_parse')}
+        for c in fn.calls(qname=PCHAR):
+            v = fn.const_value(c['args'][1]) if len(c.get('args', [])) == 2 else None
+            if v is None:
+                raise Broken('%s: opl_parse_char with a non-constant character' % fn.q)
+            others = parse_calls - {c['id']}
+            if any(path_search(fn, p['id'], lambda e: e == c['id'], lambda e: e in others) is not None for p in strs):
+                out.append((fn, c, v & 0xff))
+    return out
+
+
+def _r3(fb, R, wm, rm):
+    """Typestate of the reader's cursor: at the literal copy `result += <byte under the cursor>` that byte has been tested
+    (since the cursor last changed: increment, call taking its address) against the escape introducer and against every
+    character that ends a string -- i.e. the set of bytes that can reach the copy contains none of them."""
+    rule = 'R3-verbatim-copy-excludes-structural'
+    ps = rm.ps
+    site = ps.loc(rm.copy['id'])
+    V = rm.V
+    src = [('escape-introducer', rm.I, 'the escape introducer: an escape that follows another escape / a literal is copied instead of decoded')]
+    if wm is not None:
+        fr = ISet.of(*[wm.fn.const_value(f['args'][0]) & 0xff for f in wm.frames])
+        src.append(('writer-frame-bytes', fr, 'a frame byte of the writer\'s escapes'))
+    for (fn, c, v) in _follow_chars(fb):
+        src.append(('%s#follows-string:%s' % (fn.q, _ch(v)), ISet.of(v), 'the separator %s expects after a string' % fn.name))
+    for (key, _s, D, what) in _delimiter_sources(fb, rm):
+        if 'section-delimiters' in key or key == 'NUL':      # (line terminators are removed before a line is parsed)
+            src.append((key, D, what))
+    for (key, D, what) in src:
+        hit = V & D
+        R.check(not hit, rule, '%s#copy-vs#%s' % (PSTR, key), site,
+                'opl_parse_string can copy %s literally without having tested it since the cursor last moved (%s)' % (_set_bytes(hit) if hit else '', what),
+                detail='bytes that can reach the copy: %s' % V.fmt())
+
+
 def _r1(fb, R, wm, rm):
     rule = 'R1-unescape-accumulates-hex'
     fe = rm.pe
@@ -1095,8 +1143,33 @@ def _n4_end(fb, R):
 
 # ================================================================================================ XML
 
+def _x3_chunks(fb, R):
+    """expat delivers the character data of an element in several callbacks (one per entity / character reference and
+    one per run of text between them -- exactly what append_xml_encoded_string produces): the collector must append."""
+    rule = 'X3-xml-text-chunks-appended'
+    fns = fb.fns(NS + 'XMLParser::characters')
+    if not fns:
+        raise Broken('XMLParser::characters not found')
+    for fn in fns:
+        d_text = next((p['d'] for p in fn.params if '*' in p['tC']), None)
+        if d_text is None:
+            raise Broken('%s: text parameter not recognised' % fn.q)
+        uses = []
+        for n in fn.all_nodes():
+            if n.get('k') == 'call' and n.get('rcls') == 'std::basic_string' and any(a is not None and is_var(fn, a, d_text) for a in n.get('args', [])):
+                uses.append(n)
+        if not uses:
+            raise Broken('%s: the character data is not stored in a string' % fn.q)
+        for n in uses:
+            r = fn.sn(n['recv']) if n.get('recv') is not None else None
+            name = r.get('name', '?') if r is not None else '?'
+            R.check(n.get('q') in ('std::basic_string::append', 'std::basic_string::operator+='), rule, '%s#%s' % (fn.q, name), fn.loc(n['id']),
+                    'the character data chunk is stored with %s: every chunk overwrites the text collected so far, so a text that contained '
+                    'an escaped character comes back as its last piece only' % n.get('q'))
+
+
 def xml_rules(fb, R):
-    for rule in (_x1_table, ):
+    for rule in (_x1_table, _x3_chunks):
         try:
             rule(fb, R)
         except (Broken, Unsupported) as e:
@@ -1117,6 +1190,59 @@ def _xml_reference_value(lit):
     return None
 
 
+def _tested_null(fn, cond):
+    """(expression id, True if the condition holds when that pointer expression is non-null) for `e`, `!e`, `e != nullptr`, `e == nullptr`"""
+    n = fn.sn(cond)
+    if n is None:
+        return None
+    if n.get('k') == 'unop' and n.get('op') == '!':
+        r = _tested_null(fn, n['sub'])
+        return (r[0], not r[1]) if r else None
+    if n.get('k') == 'binop' and n.get('op') in ('==', '!='):
+        for a, b in ((n['lhs'], n['rhs']), (n['rhs'], n['lhs'])):
+            y = fn.sn(b)
+            if y is not None and (y.get('null') or fn.const_value(b) == 0):
+                return fn.strip(a), n['op'] == '!='
+        return None
+    return n['id'], True
+
+
+def _bulk_appends(fn, d_out, d_data):
+    """{write node id: (ISet of bytes that pass through it unescaped, explanation)} for appends of the whole remaining input
+    (`out.append(data)`, `out += data`).  A dominating scan `strpbrk(data, "set")` that found nothing (or `strcspn(data, "set")`
+    compared equal to `strlen(data)`) removes the bytes of its literal set; an unguarded bulk append passes every byte."""
+    res = unique_def_resolver(fn)
+    out = {}
+    for (n, kind) in string_out_calls(fn, d_out):
+        args = [a for a in n.get('args', []) if a is not None]
+        if kind != 'member' or n.get('q') not in STR_APPENDERS + ('std::basic_string::assign',) or len(args) != 1 or not is_var(fn, args[0], d_data):
+            continue
+        passes = ISet.span(1, 255)
+        why = 'no scan of the input for special characters guards it'
+        for (c, sense, _X) in guards(fn, n['id']):
+            t = _tested_null(fn, c)
+            if t is None:
+                continue
+            e, nonnull = t
+            x = fn.nodes.get(e)
+            if x is not None and x.get('k') == 'var' and x.get('vk') == 'local':
+                r = res(fn, x)
+                x = fn.sn(r) if r is not None else None
+            if x is None or x.get('k') != 'call' or x.get('q') not in ('strpbrk', 'std::strpbrk'):
+                continue
+            cargs = [a for a in x.get('args', []) if a is not None]
+            lit = string_literal(fn, cargs[1]) if len(cargs) == 2 else None
+            if lit is None or not is_var(fn, cargs[0], d_data) or nonnull == sense:
+                continue            # not a "nothing found" edge of a scan of this input with a literal set
+            if any(forward_reach(fn, x['id'], m) and forward_reach(fn, m, n['id']) for m in modifications(fn, d_data)):
+                continue            # the cursor moved between the scan and the append
+            S = ISet.of(*[ord(ch) & 0xff for ch in lit]) if lit else EMPTY
+            passes = passes - S
+            why = 'the guarding scan %s does not look for it' % fn.expr(x['id'])
+        out[n['id']] = (passes, why)
+    return out
+
+
 def _x1_table(fb, R):
     """Decided on the byte sets of the writes, not on the statement form: for every byte value b the dataflow gives
     the writes to `out` that run in an iteration in which the byte under the cursor is b (switch, if-chain, named copy
@@ -1126,9 +1252,14 @@ def _x1_table(fb, R):
     d_out = next((p['d'] for p in fn.params if 'basic_string' in p['tC'] and p['tC'].endswith('&')), None)
     if d_out is None:
         raise Broken('%s: parameters not recognised' % XMLENC)
+    d_data = next((p['d'] for p in fn.params if p['tC'].replace(' ', '') == 'constchar*'), None)
+    bulk = _bulk_appends(fn, d_out, d_data) if d_data is not None else {}
+
     def classify(text):
         lits, copies = [], []
         for (n, kind) in string_out_calls(fn, d_out):
+            if n['id'] in bulk:
+                continue
             args = n.get('args', [])
             if kind != 'member' or n.get('q') not in STR_APPENDERS or len(args) != 1:
                 raise Broken('%s: unrecognised write to the output string: %s' % (XMLENC, fn.expr(n['id'])))
@@ -1177,8 +1308,24 @@ def _x1_table(fb, R):
             v = _xml_reference_value(ws[0][2])
             R.check(v == ch, rule, key, site, 'for %s the literal %r is appended, which %s'
                     % (_ch(ch), ws[0][2], 'is not a well-formed XML reference' if v is None else 'denotes %s' % _ch(v)))
+    escaped = EMPTY
+    for (_n, S, _l) in lits:
+        escaped = escaped | S
+    bulk_leak = {}
+    for wid, (passes, why) in bulk.items():
+        # a bulk append of the (rest of the) input is a pass-through for every byte the guarding scan does not look for
+        for ch in ((escaped | ISet.of(*XML_STRUCTURAL)) & passes).values(300):
+            bulk_leak.setdefault(ch, (wid, why))
+        per_char = [n for (n, _S, _l) in lits] + [n for (n, _S) in copies]
+        if any(forward_reach(fn, wid, n['id']) for n in per_char):
+            raise Broken('%s: the per-character loop can run after a bulk append of the same input' % XMLENC)
     for ch in sorted(XML_STRUCTURAL):
-        check_byte(ch, '%s#case:%s' % (XMLENC, _ch(ch)))
+        if ch in bulk_leak:
+            wid, why = bulk_leak[ch]
+            R.bad(rule, '%s#case:%s' % (XMLENC, _ch(ch)), fn.loc(wid),
+                  'the bulk append %s copies %s unescaped: %s' % (fn.expr(wid), _ch(ch), why))
+        else:
+            check_byte(ch, '%s#case:%s' % (XMLENC, _ch(ch)))
     replaced = EMPTY
     for (_n, S, _l) in lits:
         replaced = replaced | S
@@ -1457,8 +1604,10 @@ def run(ctx):
     R.expect('O6-passthrough-verbatim', 1)
     R.expect('O7-opl-strings-escaped', 6)            # forwarder + key, value, user, role, changeset user
     R.expect('R1-unescape-accumulates-hex', 9)
+    R.expect('R3-verbatim-copy-excludes-structural', 8)  # introducer, writer frame, 3 separators after strings, 2 section sets, NUL
     R.expect('R2-utf8-encoder-table', 5)
     R.expect('X1-xml-entity-table', 9)               # 8 characters + default
+    R.expect('X3-xml-text-chunks-appended', 1)
     R.expect('X2-xml-strings-escaped', 10)           # 7 object strings (+1 emptiness test) + generator + xml_josm_upload
     R.expect('N1-cursor-advance-guarded', 5)
     R.expect('N2-utf8-decode-bounded', 11)
@@ -1484,6 +1633,6 @@ def _selftest_all(fb, R):
 
 SELFTESTS = [(rule, 'c14_escape.cpp', _selftest_all) for rule in (
     'O1-passthrough-disjoint-delims', 'O2-escape-frame', 'O3-hex-alphabet', 'O4-hex-digits-positional', 'O5-hex-length-within-reader-limit',
-    'O6-passthrough-verbatim', 'O7-opl-strings-escaped', 'R1-unescape-accumulates-hex', 'R2-utf8-encoder-table', 'X1-xml-entity-table',
-    'X2-xml-strings-escaped', 'N1-cursor-advance-guarded', 'N2-utf8-decode-bounded', 'N3-utf8-length-table', 'N4-end-is-strlen',
+    'O6-passthrough-verbatim', 'O7-opl-strings-escaped', 'R1-unescape-accumulates-hex', 'R3-verbatim-copy-excludes-structural', 'R2-utf8-encoder-table', 'X1-xml-entity-table',
+    'X2-xml-strings-escaped', 'X3-xml-text-chunks-appended', 'N1-cursor-advance-guarded', 'N2-utf8-decode-bounded', 'N3-utf8-length-table', 'N4-end-is-strlen',
     'U2-utf8-decode-assembly')]
